@@ -328,6 +328,10 @@ def _thr_job(args):
     return dict(violations=_dedup(viol), stats=st, outcomes=len(outcomes))
 
 
+def _mixed_job(a):
+    return _live_job(a[1]) if a[0] == "live" else _thr_job(a[1])
+
+
 def run(tier):
     from props import c04
 
@@ -345,12 +349,7 @@ def run(tier):
         c04.explore(rep, {"C18"}, alpha, tier, [cfg], depth_q=3, depth_t=4, dev_k_q=0, dev_k_t=0, horizon=0, run=_run)
     # E2
     lj = [(2, None), (3, 1), (2, None, "RR")] + ([(3, None), (4, None)] if thorough else [])
-    for r in core.pmap(_live_job, lj, chunk=1):
-        rep.add_violations(r["violations"])
-        rep.merge_counts(r["counts"])
-        rep.states += r["stats"]["states"]
-        rep.transitions += r["stats"]["transitions"]
-        rep.traces += r["stats"]["executions"]
+    live_results = []
     # E4
     T = lambda c, f=False: (c, f)
     tj = [
@@ -360,8 +359,16 @@ def run(tier):
         ([[T(1)], [T(2)], [T(4)]], 1 if not thorough else 2),
         ([[T(1), T(3)], [T(2), T(5, True)]], 1 if not thorough else 2),
     ]
+    # the live and thread jobs are independent: one pool for all of them
+    mixed = core.pmap(_mixed_job, [("live", j) for j in lj] + [("thr", j) for j in tj], chunk=1)
+    for r in mixed[: len(lj)]:
+        rep.add_violations(r["violations"])
+        rep.merge_counts(r["counts"])
+        rep.states += r["stats"]["states"]
+        rep.transitions += r["stats"]["transitions"]
+        rep.traces += r["stats"]["executions"]
     sched = 0
-    for r in core.pmap(_thr_job, tj, chunk=1):
+    for r in mixed[len(lj) :]:
         rep.add_violations(r["violations"])
         sched += r["stats"]["schedules"]
         rep.transitions += r["stats"]["points"]
